@@ -74,6 +74,16 @@ def build_replicas(scn, shared_config=None):
         except Exception as e:  # noqa: BLE001
             r.setup_error = (e, exc_signature(e))
         reps.append(r)
+        if fe in scn.get("twin_on", []) and fe != "qcconfig" and r.setup_error is None:
+            # a second, independently advanced generator of the same stream object and the same Config object
+            t = Replica(f"{fe}+twin", fe, "main")
+            t.stream, t.config = r.stream, r.config
+
+            def tfactory(t=t):
+                return t.stream.run(t.config)
+
+            t.task = Task(t.name, tfactory)
+            reps.append(t)
         if scn.get("alt_config") and fe in scn.get("alt_on", []) and fe != "qcconfig" and r.setup_error is None:
             a = Replica(f"{fe}+alt", fe, "alt")
             try:
